@@ -117,7 +117,7 @@ func runMem(c Case, tr *Tracer) {
 	cm, sm := codec.NewCMPPCodec(), codec.NewSMPPCodec()
 	conn := &scriptedConn{fault: "eof"}
 	for s := 0; s < steps; s++ {
-		switch rr.Intn(12) {
+		switch rr.Intn(14) {
 		case 0, 1: // encode, then the caller scribbles over the returned bytes
 			tn := typeNames[rr.Intn(len(typeNames))]
 			a := defaultAssign(rr, tn, true)
@@ -180,6 +180,62 @@ func runMem(c Case, tr *Tracer) {
 			lr.read = func() string { return snapJSON(project(tn, lr.pdu)) }
 			add(lr)
 			emit(Ev{"ev": "Decode", "r": id, "i": iid, "type": tn, "same": lr.snap == snapJSON(project(tn, refp))}, "Decode")
+			for i := range in {
+				in[i] = 0xEE
+			}
+			emit(Ev{"ev": "Scribble", "i": iid}, "Scribble")
+		case 12: // the blocking frame extractor hands out a frame of the caller's own
+			tn := typeNames[1+rr.Intn(len(typeNames)-1)]
+			img, err := build(tn, defaultAssign(rr, tn, true)).IEncode()
+			if err != nil || len(img) < 16 {
+				continue
+			}
+			bconn := &scriptedConn{fault: "eof"}
+			for off := 0; off < len(img); {
+				k := 1 + rr.Intn(len(img)-off)
+				bconn.chunks = append(bconn.chunks, append([]byte{}, img[off:off+k]...))
+				off += k
+			}
+			cd := codec.Codec(cm)
+			if tn[:4] == "smpp" {
+				cd = sm
+			}
+			frame, err := cd.DecodeBlocked(bconn)
+			if err != nil {
+				continue
+			}
+			id := nextID
+			nextID++
+			lr := &liveResult{id: id, kind: "frameB", tn: tn, owned: frame}
+			lr.read = func() string { return string(lr.owned) }
+			add(lr)
+			emit(Ev{"ev": "Codec", "r": id, "fn": "DecodeBlocked", "same": string(frame) == string(img)}, "Codec")
+		case 13: // a decode that fails half-way: the error it returns is a value too, and the input is reused afterwards
+			tn := typeNames[rr.Intn(len(typeNames))]
+			img, err := build(tn, defaultAssign(rr, tn, true)).IEncode()
+			if err != nil || len(img) < 8 {
+				continue
+			}
+			in := append([]byte{}, img[:4+rr.Intn(len(img)-4)]...)
+			iid := nextIn
+			nextIn++
+			emit(Ev{"ev": "NewInput", "i": iid}, "NewInput")
+			var derr error
+			if tn != "cmpp.SubPduDeliveryContent" && rr.Intn(2) == 0 {
+				_, derr = dispatchers[tn[:6]](in)
+			} else {
+				derr = ctors[tn]().IDecode(in)
+			}
+			if derr == nil {
+				continue
+			}
+			id := nextID
+			nextID++
+			lr := &liveResult{id: id, kind: "error", tn: tn}
+			held := derr
+			lr.read = func() string { return held.Error() }
+			add(lr)
+			emit(Ev{"ev": "Decode", "r": id, "i": iid, "type": tn, "same": true}, "Decode")
 			for i := range in {
 				in[i] = 0xEE
 			}
